@@ -117,6 +117,57 @@ def _key_expr(e, member):
     return None
 
 
+ADD_FUNCS = [
+    # function, primary container attribute, object parameter
+    ('AttackGraph.add_node', 'nodes', 'node', ('C09', 'C02')),
+    ('AttackGraph.add_attacker', 'attackers', 'attacker', ('C09', 'C11', 'C13')),
+    ('Model.add_asset', 'assets', 'asset', ('C05',)),
+    ('Model.add_attacker', 'attackers', 'attacker', ('C05', 'C07')),
+    ('Model.add_association', 'associations', 'association', ('C05', 'C06')),
+]
+
+
+def _adders_add(ctx) -> list[Inst]:
+    """ADDS  an add_* function puts its object into the primary container on EVERY normally returning path (it may
+    refuse by raising).  A silent early `return` leaves the caller with an object that is not part of the graph /
+    model - and callers go on to link it (attach_attackers compromises nodes with the attacker it has just "added")."""
+    from ..core import own_nodes
+    out = []
+    for (fname, cont, objp, props) in ADD_FUNCS:
+        if not ctx.prog.has_func(fname):
+            continue
+        f = ctx.prog.func(fname)
+        cfg = ctx.cfg(f)
+        rel = f.module.relpath
+        construct = f'ADDS: {fname} registers the object on every normal path'
+        adds = []
+        for n in own_nodes(f.node):
+            if isinstance(n, ast.Call) and isinstance(n.func, ast.Attribute) and n.func.attr in ('append', 'add', 'insert') \
+                    and isinstance(n.func.value, ast.Attribute) and n.func.value.attr == cont \
+                    and any(isinstance(a, ast.Name) and a.id == objp for a in n.args):
+                o = cfg.owner(n)
+                if o is not None:
+                    adds.append(o)
+        if not adds:
+            out.append(Inst(RULE, f.short, construct, 'unproven', msg=f'no {cont}.append({objp}) found here', file=rel,
+                            line=f.node.lineno, props=props, nontrivial=False))
+            continue
+        reach = cfg.reachable_from(cfg.entry, avoiding={a.idx for a in adds})
+        if cfg.exit.idx not in reach:
+            out.append(Inst(RULE, f.short, construct, 'ok', file=rel, line=adds[0].ast.lineno if hasattr(adds[0].ast, 'lineno') else f.node.lineno,
+                            props=props))
+            continue
+        rets = [x for x in cfg.nodes if x.idx in reach and x.kind == 'stmt' and isinstance(x.ast, ast.Return)]
+        where = rets[0].ast if rets else f.node
+        out.append(Inst(
+            RULE, f.short, construct, 'violation',
+            msg=(f"{fname} can return normally ('{stmt_text(where, 50)}') without putting '{objp}' into {cont}: the caller "
+                 f"holds an object that is not part of the container (no id, no index entry) and goes on using it - "
+                 f"references to it appear in the structure with nothing to clean them up"),
+            file=rel, line=getattr(where, 'lineno', f.node.lineno), props=props))
+    return out
+
+
 def _key_agreement(ctx) -> list[Inst]:
     """KEY: an index that is filled under `obj.<attr>` is emptied under the same attribute of the object removed:
     `del D[o.name]` / `D.pop(o.name, None)` against `D[o.full_name] = o` leaves the entry behind (or removes another
@@ -252,6 +303,7 @@ def run(ctx) -> list[Inst]:
                             file=f.module.relpath, line=e.lineno, props=g['props']))
     # ------------------------------------------------------------------ KEY
     insts += _key_agreement(ctx)
+    insts += _adders_add(ctx)
     # ------------------------------------------------------------------ RESET
     for c in prog.classes.values():
         init = c.methods.get('__init__')
